@@ -69,6 +69,9 @@ func progressLinesOracle(term string, columns int) string {
 type c20Params struct {
 	WidthFrom int `json:"from"`
 	WidthTo   int `json:"to"`
+	// World: the display inside a real client: the terminal is made narrower in the middle of one download and
+	// a second download follows in the same session; every progress line written after the resize must fit
+	World bool `json:"world,omitempty"`
 }
 
 type c20Name struct {
@@ -109,10 +112,63 @@ var c20StepSeqs = []c20Steps{
 	{"huge", func(s int64) []int64 { return []int64{1 << 62, 1<<63 - 1, s} }},
 }
 
+func c20World(r *vs.JobResult) {
+	for _, dir := range []string{"down", "up"} {
+		for _, step := range []int{60, 120, 180, 240, 300, 360} {
+			for _, to := range []int{60, 40} {
+				mark := -1
+				wp := wParams{Dir: dir, Tree: "one:R:35000", Columns: 120, LatencyMs: 120, Timeout: 5, Then: []wParams{{Dir: dir, Tree: "small3"}}}
+				w, res := runWorldWith(wp, vs.Config{}, nil, nil, func(w *world) {
+					vs.InjectAt(step, func() {
+						mark = len(w.term.Written)
+						w.filter.SetTerminalColumns(int32(to))
+					})
+				})
+				r.Execs++
+				r.Nontrivial++
+				v := ""
+				switch {
+				case len(res.Sched.Crash) > 0:
+					v = "panic: " + res.Sched.CrashString()
+				case res.Sched.Horizon:
+					v = "horizon reached"
+				case len(res.Next) != 1 || !strings.HasPrefix(res.ClientExit+serverSaid(res.SrvStdout), "Saved") || !strings.HasPrefix(res.Next[0].ClientExit+serverSaid(res.Next[0].SrvStdout), "Saved"):
+					v = "one of the two fault-free transfers did not succeed"
+				}
+				if v != "" {
+					r.Violate("c20:world:"+firstWords(v, 6), wp.String()+": "+v, nil)
+					return
+				}
+				if mark < 0 {
+					continue // the first transfer was over before that step
+				}
+				term := w.term.Written[mark:]
+				for _, l := range progressLines(string(term), "") {
+					if i := strings.IndexAny(l, "\x1b\x07"); i >= 0 {
+						l = l[:i] // what follows is not the display's (the next trigger is printed right after the last line)
+					}
+					if !strings.Contains(l, "%") {
+						continue
+					}
+					if wd := runewidth.StringWidth(l); wd > to {
+						r.Violate("c20:world-width", fmt.Sprintf("%s, terminal resized from 120 to %d columns before step %d: a progress line %d columns wide was drawn afterwards: %q", wp.String(), to, step, wd, clipStr(l, 130)), nil)
+						return
+					}
+				}
+			}
+		}
+	}
+	r.Samples = append(r.Samples, "real client: terminal narrowed from 120 to 60 / 40 columns at 6 points of a transfer, a second transfer follows; every progress line after the resize is measured")
+}
+
 func c20Run(j vs.Job) *vs.JobResult {
 	var p c20Params
 	j.Decode(&p)
 	r := &vs.JobResult{Outcomes: map[string]int64{}}
+	if p.World {
+		c20World(r)
+		return r
+	}
 	names := c20Names(j.Tier)
 	sizes := []int64{0, 1, 1023, 1024, 1 << 31, 1 << 62}
 	counts := []int{1, 2, 10, 1000}
@@ -238,7 +294,7 @@ func init() {
 		ID:    "C20",
 		Level: "exploration",
 		Rule: "every width 1..200 (quick) / 1..500 (thorough) x tmux pane width {0, w} x names of display width {0,1,19,20,21,29,30,31,39,40,41,49,50,51,70} in five families (ASCII, CJK, emoji, combining marks, control characters) x file counts {1,2,10,1000} x step sequences {monotone, repeats, regression, beyond the size, negative, zero after n, huge} x {fresh file, file resumed after a matched prefix of size/2, size-1, size or 1 bytes}, " +
-			"with sizes {0,1,1023,1024,2^31,2^62}, time between steps {0,1 ms,1 s,10^6 s}, colour pair and tmux prefix rotated through the other dimensions; every line drawn is measured with the library the code uses",
+			"with sizes {0,1,1023,1024,2^31,2^62}, time between steps {0,1 ms,1 s,10^6 s}, colour pair and tmux prefix rotated through the other dimensions; every line drawn is measured with the library the code uses; plus the display inside a real client whose terminal is narrowed at 6 points of one transfer with a second transfer following",
 		Assumptions: []string{"display width is measured with go-runewidth after removing the CSI sequences and the tmux octal encoding the bar itself emits; control characters count as width 0 as that library does",
 			"sizes, time deltas, colour and tmux prefix are rotated (a covering arrangement), not multiplied into the product"},
 		QuickBudget: 100, ThoroughBudget: 900,
@@ -254,8 +310,9 @@ func init() {
 				if to > max {
 					to = max
 				}
-				jobs = append(jobs, vs.MkJob(fmt.Sprintf("widths %d-%d", w, to), c20Params{w, to}))
+				jobs = append(jobs, vs.MkJob(fmt.Sprintf("widths %d-%d", w, to), c20Params{WidthFrom: w, WidthTo: to}))
 			}
+			jobs = append(jobs, vs.MkJob("display inside a real client, resized between transfers", c20Params{World: true}))
 			return jobs
 		},
 		Run: c20Run,
